@@ -28,10 +28,34 @@ def _setup_path():
     sys.dont_write_bytecode = True
 
 
+class _ReplayTimeout(BaseException):
+    pass
+
+
+def _with_alarm(seconds, fn, *a):
+    """the real code under replay may block (terminal input, threads): bound it"""
+    import signal
+
+    def onalarm(signum, frame):
+        raise _ReplayTimeout("replay exceeded %ds" % seconds)
+    old = signal.signal(signal.SIGALRM, onalarm)
+    signal.alarm(seconds)
+    try:
+        return fn(*a)
+    finally:
+        signal.alarm(0)
+        signal.signal(signal.SIGALRM, old)
+
+
 # ------------------------------------------------------------------ deductive worker
 def _run_target(job):
     """verify one function (or lemma) and discharge its obligations; returns plain data"""
     _setup_path()
+    try:
+        sys.stdin = open(os.devnull)  # replayed real code must never wait for terminal input
+        os.dup2(sys.stdin.fileno(), 0)
+    except Exception:
+        pass
     prop, kind, name, self_cls, timeout_ms, exclusions, tag, only_case = job
     t0 = time.time()
     out = {"target": name, "self_cls": self_cls, "kind": kind, "status": "ok", "reason": "", "obligations": [],
@@ -73,9 +97,9 @@ def _run_target(job):
                         runs.append({"verdict": "skipped", "why": str(w)})
                         continue
                     try:
-                        runs.append(replay.run_witness(name, w))
+                        runs.append(_with_alarm(15, replay.run_witness, name, w))
                     except BaseException as e:  # noqa
-                        runs.append({"verdict": "skipped", "why": "replay crashed: %r" % (e,)})
+                        runs.append({"verdict": "skipped", "why": "replay crashed or timed out: %r" % (e,)})
                     if runs[-1].get("verdict") == "reproduced":
                         break
                 d["replays"] = runs
